@@ -29,6 +29,7 @@ import (
 	"google.golang.org/grpc"
 	"google.golang.org/grpc/backoff"
 	"google.golang.org/grpc/credentials"
+	"google.golang.org/grpc/credentials/insecure"
 	healthpb "google.golang.org/grpc/health/grpc_health_v1"
 	"google.golang.org/grpc/stats"
 
@@ -117,14 +118,19 @@ func vtStopProvider(cancel context.CancelFunc, prov mux.MuxProvider, r *vtRec) {
 
 // vtPeerMuxEnd is the raw peer's side of a mux connection: crypto/tls handshake, yamux session, byte exchange on one
 // stream (initiate = client role of the raw peer).  Like the proxy's end it reports first and closes on release.
-func vtPeerMuxEnd(tconn *tls.Conn, initiate bool, sent func() bool, release <-chan struct{}, done chan<- vtEnd) {
+// A plaintext peer passes the bare TCP connection and handshake = nil: raw yamux, no TLS at all.
+func vtPeerMuxEnd(tconn net.Conn, handshake func() error, initiate bool, sent func() bool, release <-chan struct{},
+	done chan<- vtEnd) {
 	var e vtEnd
 	var sess *yamux.Session
 	var st *yamux.Stream // typed: a failed OpenStream / AcceptStream returns a nil *Stream
-	_ = tconn.SetDeadline(time.Now().Add(vtIOTimeout))
-	err := tconn.Handshake()
+	var err error
+	if handshake != nil {
+		_ = tconn.SetDeadline(time.Now().Add(vtIOTimeout))
+		err = handshake()
+		e.Hs = err == nil
+	}
 	if err == nil {
-		e.Hs = true
 		_ = tconn.SetDeadline(time.Time{})
 		if initiate {
 			if sess, err = yamux.Client(tconn, vtYamuxCfg()); err == nil {
@@ -198,7 +204,9 @@ func vtJoinMux(r *vtRec, proxyDone, peerDone <-chan vtEnd, release, stop chan st
 
 // ---- role server over mux: transport/mux/receiver.go
 func vtMuxServer(p *vtPKI, c vtCase, r *vtRec) {
-	tc := vtTLSConfigOf(p.files(c.Cfg))
+	f, afterStart := p.caseFiles(c)
+	defer afterStart()
+	tc := vtTLSConfigOf(f)
 	if !tc.IsEnabled() { // NewMuxReceiverProvider would listen in plaintext
 		r.Startup = "disabled"
 		return
@@ -214,24 +222,30 @@ func vtMuxServer(p *vtPKI, c vtCase, r *vtRec) {
 		return
 	}
 	r.Startup = "ready"
+	afterStart() // the listener is up; the peer has not dialled yet
 	prov.Start()
 	stop, release := make(chan struct{}), make(chan struct{})
 	proxyDone, peerDone := make(chan vtEnd, 1), make(chan vtEnd, 1)
 	go vtProxyMuxEnd(addedCh, stop, release, false, proxyDone)
-	pc, sent := p.peerClient(c.Cred)
 	conn, err := net.Dial("tcp", prov.Address())
 	if err != nil {
 		r.Note = "dial: " + err.Error()
 		peerDone <- vtEnd{Err: err.Error()}
+	} else if c.Cred.Class == vtPlaintext {
+		go vtPeerMuxEnd(conn, nil, true, func() bool { return false }, release, peerDone)
 	} else {
-		go vtPeerMuxEnd(tls.Client(conn, pc), true, sent.Load, release, peerDone)
+		pc, sent := p.peerClient(c.Cred)
+		tconn := tls.Client(conn, pc)
+		go vtPeerMuxEnd(tconn, tconn.Handshake, true, sent.Load, release, peerDone)
 	}
 	vtJoinMux(r, proxyDone, peerDone, release, stop, cancel, prov)
 }
 
 // ---- role client over mux: transport/mux/establisher.go
 func vtMuxClient(p *vtPKI, c vtCase, r *vtRec) {
-	tc := vtTLSConfigOf(p.files(c.Cfg))
+	f, afterStart := p.caseFiles(c)
+	defer afterStart()
+	tc := vtTLSConfigOf(f)
 	if !tc.IsEnabled() { // NewMuxEstablisherProvider would dial in plaintext
 		r.Startup = "disabled"
 		return
@@ -253,6 +267,7 @@ func vtMuxClient(p *vtPKI, c vtCase, r *vtRec) {
 		return
 	}
 	r.Startup = "ready"
+	afterStart() // the provider is built; it has not dialled yet
 	stop, release := make(chan struct{}), make(chan struct{})
 	proxyDone, peerDone := make(chan vtEnd, 1), make(chan vtEnd, 1)
 	// the raw peer: the FIRST connection is the case; the establisher redials at once after a refused attempt, later
@@ -269,8 +284,12 @@ func vtMuxClient(p *vtPKI, c vtCase, r *vtRec) {
 				continue
 			}
 			first = false
-			go vtPeerMuxEnd(tls.Server(conn, p.peerServer(c.Cred)), false, func() bool { return c.Cred.Class != "none" },
-				release, peerDone)
+			if c.Cred.Class == vtPlaintext {
+				go vtPeerMuxEnd(conn, nil, false, func() bool { return false }, release, peerDone)
+				continue
+			}
+			tconn := tls.Server(conn, p.peerServer(c.Cred))
+			go vtPeerMuxEnd(tconn, tconn.Handshake, false, func() bool { return c.Cred.Class != "none" }, release, peerDone)
 		}
 	}()
 	prov.Start()
@@ -339,7 +358,9 @@ func (s *vtConnStats) HandleConn(_ context.Context, cs stats.ConnStats) {
 
 // ---- role server over TCP: proxy/cluster_connection.go:makeServerOptions (the options createTCPServer's grpc.Server gets)
 func vtTCPServer(p *vtPKI, c vtCase, r *vtRec) {
-	tc := vtTLSConfigOf(p.files(c.Cfg))
+	f, afterStart := p.caseFiles(c)
+	defer afterStart()
+	tc := vtTLSConfigOf(f)
 	if !tc.IsEnabled() { // makeServerOptions would return options without transport credentials
 		r.Startup = "disabled"
 		return
@@ -365,8 +386,16 @@ func vtTCPServer(p *vtPKI, c vtCase, r *vtRec) {
 		return
 	}
 	go func() { _ = srv.Serve(ln) }()
-	pc, sent := p.peerClient(c.Cred)
-	creds := vtNewCreds(pc)
+	afterStart() // the server is serving; the peer has not dialled yet
+	var creds *vtCreds
+	sent := new(atomic.Bool)
+	if c.Cred.Class == vtPlaintext { // a plaintext gRPC dial
+		creds = &vtCreds{insecure.NewCredentials(), new(atomic.Int32), new(atomic.Int32)}
+	} else {
+		var pc *tls.Config
+		pc, sent = p.peerClient(c.Cred)
+		creds = vtNewCreds(pc)
+	}
 	cc, err := grpc.NewClient(ln.Addr().String(), grpc.WithTransportCredentials(creds), grpc.WithDisableRetry(),
 		grpc.WithConnectParams(grpc.ConnectParams{Backoff: backoff.Config{BaseDelay: 10 * time.Millisecond, Multiplier: 1.2,
 			MaxDelay: 50 * time.Millisecond}, MinConnectTimeout: vtIOTimeout}))
@@ -379,7 +408,8 @@ func vtTCPServer(p *vtPKI, c vtCase, r *vtRec) {
 	_, err = healthpb.NewHealthClient(cc).Check(rctx, &healthpb.HealthCheckRequest{})
 	timedOut := rctx.Err() != nil
 	rcancel()
-	r.Peer = vtEnd{Hs: creds.ok.Load() > 0, Byte: err == nil, Err: vtErrStr(err), Sent: sent.Load(), timedOut: timedOut}
+	r.Peer = vtEnd{Hs: creds.ok.Load() > 0 && c.Cred.Class != vtPlaintext, Byte: err == nil, Err: vtErrStr(err),
+		Sent: sent.Load(), timedOut: timedOut}
 	_ = cc.Close()
 	srv.Stop()
 	r.Proxy = vtEnd{Hs: cs.begun.Load() > 0, Byte: hs.calls.Load() > 0}
@@ -387,7 +417,9 @@ func vtTCPServer(p *vtPKI, c vtCase, r *vtRec) {
 
 // ---- role client over TCP: proxy/cluster_connection.go:buildTLSTCPClient
 func vtTCPClient(p *vtPKI, c vtCase, r *vtRec) {
-	tc := vtTLSConfigOf(p.files(c.Cfg))
+	f, afterStart := p.caseFiles(c)
+	defer afterStart()
+	tc := vtTLSConfigOf(f)
 	if !tc.IsEnabled() { // buildTLSTCPClient would dial with insecure credentials
 		r.Startup = "disabled"
 		return
@@ -406,7 +438,12 @@ func vtTCPClient(p *vtPKI, c vtCase, r *vtRec) {
 		return
 	}
 	r.Startup = "ready"
-	creds, hs := vtNewCreds(p.peerServer(c.Cred)), &vtHealth{}
+	afterStart() // the client is built; it connects with the first call
+	hs := &vtHealth{}
+	creds := &vtCreds{insecure.NewCredentials(), new(atomic.Int32), new(atomic.Int32)} // plaintext gRPC server
+	if c.Cred.Class != vtPlaintext {
+		creds = vtNewCreds(p.peerServer(c.Cred))
+	}
 	srv := grpc.NewServer(grpc.Creds(creds))
 	healthpb.RegisterHealthServer(srv, hs)
 	go func() { _ = srv.Serve(ln) }()
@@ -418,5 +455,6 @@ func vtTCPClient(p *vtPKI, c vtCase, r *vtRec) {
 	r.Proxy = vtEnd{Hs: err == nil, Byte: err == nil, Err: vtErrStr(err), timedOut: timedOut}
 	_ = cc.Close()
 	srv.Stop()
-	r.Peer = vtEnd{Hs: creds.ok.Load() > 0, Byte: hs.calls.Load() > 0, Sent: c.Cred.Class != "none"}
+	r.Peer = vtEnd{Hs: creds.ok.Load() > 0 && c.Cred.Class != vtPlaintext, Byte: hs.calls.Load() > 0,
+		Sent: c.Cred.Class != "none" && c.Cred.Class != vtPlaintext}
 }
